@@ -1276,8 +1276,56 @@ func searchCursorGuard(x *ssa.Slice) string {
 	return "bounds are a search cursor (0, then past each match of Index*(s[cursor:])) and a match offset found from it, both within the sliced value"
 }
 
+// readCountGuard: buf[:n] with n the byte count returned by a read into buf (io.ReadFull / ReadAtLeast, a Read
+// method, copy): the io.Reader contract gives 0 <= n <= len(buf).
+func readCountGuard(x *ssa.Slice) string {
+	if x.High == nil || x.Max != nil {
+		return ""
+	}
+	if x.Low != nil {
+		if k, isK := ConstInt(x.Low); !isK || k != 0 {
+			return ""
+		}
+	}
+	for _, r := range Roots(x.High, false) {
+		var cl *ssa.Call
+		switch v := r.(type) {
+		case *ssa.Extract:
+			if v.Index != 0 {
+				return ""
+			}
+			cl, _ = v.Tuple.(*ssa.Call)
+		case *ssa.Call:
+			cl = v
+		}
+		if cl == nil {
+			return ""
+		}
+		var buf ssa.Value
+		switch {
+		case MatchCC(&cl.Call, Spec{"io", "", "ReadFull"}, Spec{"io", "", "ReadAtLeast"}):
+			buf = cl.Call.Args[1]
+		case IsBuiltinCall(cl, "copy"):
+			buf = cl.Call.Args[0]
+		case cl.Call.IsInvoke() && cl.Call.Method.Name() == "Read" && len(cl.Call.Args) == 1:
+			buf = cl.Call.Args[0]
+		default:
+			if f := CalleeObj(&cl.Call); f != nil && f.Name() == "Read" && f.Pkg() != nil && !IsPandora(f.Pkg().Path()) && len(cl.Call.Args) == 2 {
+				buf = cl.Call.Args[1]
+			}
+		}
+		if buf == nil || !sameValue(buf, x.X) {
+			return ""
+		}
+	}
+	return "the bound is the byte count of a read into the sliced buffer (0 <= n <= len by the io.Reader contract)"
+}
+
 func sliceGuard(x *ssa.Slice) string {
 	if g := searchCursorGuard(x); g != "" {
+		return g
+	}
+	if g := readCountGuard(x); g != "" {
 		return g
 	}
 	// clamp idiom: 0 <= low <= high <= len established by dominating comparisons and clamping assignments
